@@ -51,7 +51,13 @@ pub fn gen_case(seed: u64, index: u64) -> Case {
                 f
             }
         };
-        let op = match rng.below(40) {
+        let op = match rng.below(46) {
+            40 => Op::new("r.round").a(a).dst(d).form(rng.below(5)),
+            41 => Op::new(rng.pick(&["r.fract", "r.split"])).a(a).dst(d).form(rng.below(3)),
+            42 => Op::new("r.toint").a(a).dst(d),
+            43 | 44 => Op::new("r.diveuclid").a(a).b(b).dst(d).form(rng.below(3)),
+            45 if rng.chance(1, 3) => Op::new("r.zeroize").a(a),
+            45 => Op::new("r.zeroes").a(a).b(b).c(slot(&mut rng)).dst(d).form(rng.below(5)),
             0..=5 => Op::new("r.lit").dst(d).form(rng.below(3)).n(rng.below(5000) as i64).m(rng.below(2) as i64).lit(factor_lit(&mut rng)),
             6 | 7 => {
                 // integer operands for the mixed forms and from_parts (small primes and random cofactors)
@@ -139,6 +145,8 @@ fn ref_rem(a: &BigRational, b: &BigRational) -> BigRational {
 
 enum RefOut {
     Value(BigRational),
+    /// integer result in I[dst] (both types must produce it), optionally a rational part stored in the given slot
+    Int(BigInt, Option<(BigRational, usize)>),
     Panic,
     /// operation the reference does not model (harmless producers): re-synchronise from read-back
     Resync,
@@ -228,6 +236,33 @@ fn ref_exec(q: &[BigRational], op: &Op, w: &World) -> (RefOut, usize) {
                 (RefOut::Value(BigRational::new(n, d)), dst)
             }
         }
+        "round" => {
+            let x = &q[a];
+            match form % 5 {
+                0 => (RefOut::Int(x.trunc().to_integer(), None), dst),
+                1 => (RefOut::Int(x.floor().to_integer(), None), dst),
+                2 => (RefOut::Int(x.ceil().to_integer(), None), dst),
+                // ties away from zero (documented), which is what BigRational::round does
+                3 => (RefOut::Int(x.round().to_integer(), None), dst),
+                _ => (RefOut::Int(x.trunc().to_integer(), Some((x.fract(), dst))), dst),
+            }
+        }
+        "fract" => (RefOut::Value(q[a].fract()), dst),
+        "zeroize" => (RefOut::Value(BigRational::zero()), a),
+        "split" => (RefOut::Int(q[a].trunc().to_integer(), Some((q[a].fract(), (dst + 1) % NP))), dst),
+        "toint" => (RefOut::Int(q[a].trunc().to_integer(), None), dst),
+        "diveuclid" => {
+            let (x, y) = (&q[a], &q[b]);
+            if y.is_zero() {
+                (RefOut::Panic, dst)
+            } else {
+                // 0 <= r < |y|
+                let t = x / y;
+                let qe = if y.is_positive() { t.floor() } else { t.ceil() };
+                let r = x - y * &qe;
+                (RefOut::Int(qe.to_integer(), Some((r, dst))), dst)
+            }
+        }
         "clone" | "clonefrom" | "rt" => (RefOut::Value(q[a].clone()), dst),
         "intoparts" => (RefOut::Value(q[a].clone()), dst),
         _ => (RefOut::Resync, dst),
@@ -284,6 +319,7 @@ pub fn run_case(case: &Case, stats: &mut Stats, cnt: &mut C04Counters) -> CaseRe
             stats.skipped += 1;
             continue;
         }
+        let x_int = untracked(|| ibig_to_bigint(&w.i[ix(op.dst)]));
         env.reset();
         let (la, lb) = operand_layouts(&w, op);
         simalloc::track(true);
@@ -342,6 +378,31 @@ pub fn run_case(case: &Case, stats: &mut Stats, cnt: &mut C04Counters) -> CaseRe
                 }
                 if !env.skipped {
                     q[target] = v;
+                }
+            }
+            RefOut::Int(int, frac) => {
+                if r_panicked || x_panicked {
+                    let p = rp.as_ref().or(xp.as_ref());
+                    res.violation = Some(viol(
+                        "ratio.unexpected_panic",
+                        k,
+                        format!("{}: defined operation panicked (RBig {}, Relaxed {}): {}", op.name, r_panicked, x_panicked, p.map(|p| format!("{} @{}:{}", p.msg(), p.file(), p.line)).unwrap_or_default()),
+                    ));
+                    break;
+                }
+                if !env.skipped {
+                    let r_int = untracked(|| ibig_to_bigint(&w.i[ix(op.dst)]));
+                    if r_int != int || x_int != int {
+                        res.violation = Some(viol(
+                            "ratio.int_result",
+                            k,
+                            format!("{} form {} of {}: RBig gives {}, Relaxed gives {}, the exact integer result is {}", op.name, op.form, describe(&w, ix(op.a)), hex_big(&r_int), hex_big(&x_int), hex_big(&int)),
+                        ));
+                        break;
+                    }
+                    if let Some((v, slot)) = frac {
+                        q[slot] = v;
+                    }
                 }
             }
             RefOut::Resync => {}
